@@ -507,6 +507,17 @@ def _r7_5_queue(ctx: Ctx, f: Func, rule: str, q: str):
 
 
 _SPEC_FN = [None]
+_COUNT_OF = [None]          # text of the neighbour row (`bonds_info[atom_index]`), set by r7_4
+
+
+def _is_count(e: ast.AST, cnt: Optional[str]) -> bool:
+    """the number of bonded neighbours: the count variable, or len(<the neighbour row>) written in place"""
+    if cnt is not None and norm(e) == cnt:
+        return True
+    if isinstance(e, ast.Call) and call_name(e) == "len" and len(e.args) == 1 and _COUNT_OF[0] and _SPEC_FN[0] is not None:
+        from ..pat import expand_single_defs as _x
+        return norm(_x(_SPEC_FN[0], e.args[0])).replace(" ", "") == _COUNT_OF[0].replace(" ", "")
+    return False
 
 
 def _specialise(e: ast.AST, sd: Dict[str, ast.AST], cnt: Optional[str], n: int, depth: int = 0) -> Optional[ast.AST]:
@@ -520,7 +531,7 @@ def _specialise(e: ast.AST, sd: Dict[str, ast.AST], cnt: Optional[str], n: int, 
         pol = True
         while isinstance(t, ast.UnaryOp) and isinstance(t.op, ast.Not):
             t, pol = t.operand, not pol
-        if isinstance(t, ast.Compare) and len(t.ops) == 1 and norm(t.left) == cnt and const_int(t.comparators[0]) is not None:
+        if isinstance(t, ast.Compare) and len(t.ops) == 1 and _is_count(t.left, cnt) and const_int(t.comparators[0]) is not None:
             v = const_int(t.comparators[0])
             val = {ast.Eq: n == v, ast.NotEq: n != v, ast.Gt: n > v, ast.GtE: n >= v, ast.Lt: n < v, ast.LtE: n <= v}.get(type(t.ops[0]))
             return None if val is None else (val == pol)
@@ -600,6 +611,7 @@ def r7_4(ctx: Ctx, g: Func, f: Func, rule="R7.4"):
     dirvar = None
     from ..pat import single_defs
     sd_ = single_defs(g.node)
+    _COUNT_OF[0] = "%s[%s]" % (B, I)
     from ..pat import unpacked_defs
     for k_, v_ in unpacked_defs(g.node).items():
         sd_.setdefault(k_, v_)
@@ -613,7 +625,7 @@ def r7_4(ctx: Ctx, g: Func, f: Func, rule="R7.4"):
             for t, pol in gs:
                 while isinstance(t, ast.UnaryOp) and isinstance(t.op, ast.Not):     # integer counts: not (n >= 3) == n < 3
                     t, pol = t.operand, not pol
-                if isinstance(t, ast.Compare) and norm(t.left) == cnt and len(t.ops) == 1 and const_int(t.comparators[0]) is not None:
+                if isinstance(t, ast.Compare) and _is_count(t.left, cnt) and len(t.ops) == 1 and const_int(t.comparators[0]) is not None:
                     v = const_int(t.comparators[0])
                     val = {ast.Eq: n_ == v, ast.NotEq: n_ != v, ast.Gt: n_ > v, ast.GtE: n_ >= v,
                            ast.Lt: n_ < v, ast.LtE: n_ <= v}.get(type(t.ops[0]))
